@@ -40,7 +40,20 @@ func (t *TransactionBase) Success() {
 	t.mutex.Lock()
 	defer t.mutex.Unlock()
 
+	if t.isDone() {
+		return
+	}
 	t.finish()
+}
+
+// isDone reports whether the transaction has already completed.
+func (t *TransactionBase) isDone() bool {
+	select {
+	case <-t.done:
+		return true
+	default:
+		return false
+	}
 }
 
 // You must acquire write lock on t.mutex before calling this function!
@@ -68,6 +81,9 @@ func (t *TransactionBase) Fail(e error) {
 	t.mutex.Lock()
 	defer t.mutex.Unlock()
 
+	if t.isDone() {
+		return
+	}
 	t.err = e
 	t.finish()
 }
